@@ -10,6 +10,7 @@ import Mathlib.Tactic.Linarith
 import Mathlib.Tactic.FieldSimp
 import Mathlib.Tactic.Positivity
 import Mathlib.Topology.Algebra.Order.LiminfLimsup
+import Mathlib.Analysis.SpecialFunctions.Trigonometric.Bounds
 /-!
 # Helper lemmas for the kernel part of C09: the kernels of `Pose/Model/Kernel.lean` at `α = ℝ`
 (closed forms, monotonicity, first and second derivatives, signs)
@@ -534,5 +535,88 @@ theorem tolerantD2_nonpos {a b : ℝ} (hb : b < 0) (x : ℝ) : tolerantD2 a b x 
   have : 0 < (1 + Real.exp ((x - a) / b)) * (1 + Real.exp ((x - a) / b)) := by positivity
   nlinarith
 
+
+
+/-! ### robust kernels never exceed the quadratic loss: `ρ(x) ≤ x` (SoftLOne: `≤ δ²x`) -/
+
+theorem huberV_le_self (δ : ℝ) {x : ℝ} (hx : 0 ≤ x) : huberV δ x ≤ x := by
+  rw [huberV_real]
+  by_cases h : Real.sqrt x < δ
+  · rw [if_pos h]
+  · rw [if_neg h]
+    nlinarith [sq_nonneg (Real.sqrt x - δ), Real.mul_self_sqrt hx]
+
+theorem pseudoHuberV_le_self {δ x : ℝ} (hδ : 0 < δ) (hx : 0 ≤ x) : pseudoHuberV δ x ≤ x := by
+  rw [pseudoHuberV_real]
+  have h2 : 0 < δ * δ := by positivity
+  set u := x / (δ * δ) with hu
+  have hu0 : 0 ≤ u := by positivity
+  have hs : Real.sqrt (u + 1) ≤ 1 + u / 2 := by
+    rw [show 1 + u / 2 = Real.sqrt ((1 + u / 2) ^ 2) from (Real.sqrt_sq (by positivity)).symm]
+    apply Real.sqrt_le_sqrt
+    nlinarith [sq_nonneg u]
+  have hx' : x = u * (δ * δ) := by rw [hu]; field_simp
+  nlinarith
+
+theorem cauchyV_le_self {δ x : ℝ} (hδ : 0 < δ) (hx : 0 ≤ x) : cauchyV δ x ≤ x := by
+  rw [cauchyV_real]
+  have h2 : 0 < δ * δ := by positivity
+  set u := x / (δ * δ) with hu
+  have hu0 : 0 ≤ u := by positivity
+  have hl : Real.log (u + 1) ≤ u := by
+    have := Real.log_le_sub_one_of_pos (show 0 < u + 1 by positivity)
+    linarith
+  have hx' : x = u * (δ * δ) := by rw [hu]; field_simp
+  nlinarith
+
+theorem scaleV_le_self {δ x : ℝ} (hδ1 : δ ≤ 1) (hx : 0 ≤ x) : scaleV δ x ≤ x := by
+  rw [scaleV_real]; nlinarith
+
+theorem tolerantV_le_self {a b x : ℝ} (hb : b < 0) (hx : 0 ≤ x) : tolerantV a b x ≤ x := by
+  rw [tolerantV_real]
+  -- ρ = b·(log(1+c q) − log(1+c)),  c = e^{−a/b}, q = e^{x/b} ≤ 1
+  have hq : Real.exp ((x - a) / b) = Real.exp (-a / b) * Real.exp (x / b) := by
+    rw [← Real.exp_add]; congr 1; field_simp; ring
+  set c := Real.exp (-a / b) with hc
+  set q := Real.exp (x / b) with hqd
+  have hc0 : 0 < c := Real.exp_pos _
+  have hq0 : 0 < q := Real.exp_pos _
+  have hq1 : q ≤ 1 := by
+    rw [hqd, ← Real.exp_zero]; apply Real.exp_le_exp.mpr
+    exact div_nonpos_of_nonneg_of_nonpos hx hb.le
+  rw [hq]
+  -- x = b · log q
+  have hxq : x = b * Real.log q := by rw [hqd, Real.log_exp]; field_simp [hb.ne]
+  have key : Real.log (1 + c) - Real.log (1 + c * q) ≤ - Real.log q := by
+    rw [← Real.log_inv, ← Real.log_div (by positivity) (by positivity)]
+    apply Real.log_le_log (by positivity)
+    rw [div_le_iff₀ (by positivity), inv_mul_eq_div, le_div_iff₀ hq0]
+    nlinarith
+  nlinarith
+
+theorem arctanV_le_self {δ x : ℝ} (hδ : δ ≠ 0) (hx : 0 ≤ x) : arctanV δ x ≤ x := by
+  rw [arctanV_real]
+  have h2 : 0 < δ * δ := mul_self_pos.mpr hδ
+  set w := x / (δ * δ) with hw
+  have hw0 : 0 ≤ w := by positivity
+  have h : Real.arctan w ≤ w := by
+    have h1 : 0 ≤ Real.arctan w := Real.arctan_nonneg.mpr hw0
+    have := Real.le_tan h1 (Real.arctan_lt_pi_div_two w)
+    rwa [Real.tan_arctan] at this
+  have hx' : x = w * (δ * δ) := by rw [hw]; field_simp
+  nlinarith
+
+theorem softLOneV_le {δ x : ℝ} (hδ : 0 < δ) (hx : 0 ≤ x) : softLOneV δ x ≤ δ * δ * x := by
+  rw [softLOneV_real]
+  have h2 : 0 < δ * δ := by positivity
+  -- δ √(1/δ² + x) = √(1 + δ² x) ≤ 1 + δ² x / 2
+  have hs : δ * Real.sqrt (1 / (δ * δ) + x) ≤ 1 + δ * δ * x / 2 := by
+    have e : δ * Real.sqrt (1 / (δ * δ) + x) = Real.sqrt (1 + δ * δ * x) := by
+      rw [show (1 + δ * δ * x) = (δ * δ) * (1 / (δ * δ) + x) by field_simp,
+        Real.sqrt_mul h2.le, Real.sqrt_mul_self hδ.le]
+    rw [e, show 1 + δ * δ * x / 2 = Real.sqrt ((1 + δ * δ * x / 2) ^ 2) from (Real.sqrt_sq (by positivity)).symm]
+    apply Real.sqrt_le_sqrt
+    nlinarith [sq_nonneg (δ * δ * x)]
+  linarith
 
 end PP.Kernel
